@@ -4,6 +4,7 @@ import (
 	"fmt"
 	"go/constant"
 	"go/token"
+	"math"
 	"math/big"
 	"sort"
 	"strings"
@@ -296,8 +297,12 @@ func checkC17(c *Checker) {
 			continue
 		}
 		p := c.pos(fn.Pos())
-		ret := mergedRet(retPaths(s))
-		if ret == nil || len(retPaths(s)) != 1 || len(panicPaths(s)) > 0 {
+		// the property speaks about positive rates: a path that only f <= 0 or NaN takes (a guard returning 0, a
+		// friendlier panic) is outside it
+		rets := positiveRatePaths(retPaths(s), paramName(fn, 0))
+		pans := positiveRatePaths(panicPaths(s), paramName(fn, 0))
+		ret := mergedRet(rets)
+		if ret == nil || len(rets) != 1 || len(pans) > 0 {
 			c.refuted("C17-T2", sp.name, p, "not a single straight-line formula", "")
 			continue
 		}
@@ -307,7 +312,9 @@ func checkC17(c *Checker) {
 				ret = mkConv(mkCall("math.Round", ret.Args[0].Typ, x), ret.Typ)
 			}
 		}
-		okT2 := ret.Op == OpConv && isIntLike(ret.Typ) && ret.Args[0].Op == OpCall && ret.Args[0].Name == "math.Round" && len(ret.Args[0].Args) == 1
+		// (math.RoundToEven rounds to nearest as well: it differs from math.Round only at exact halves, where both
+		// neighbours are half a unit away, and it is monotone)
+		okT2 := ret.Op == OpConv && isIntLike(ret.Typ) && ret.Args[0].Op == OpCall && (ret.Args[0].Name == "math.Round" || ret.Args[0].Name == "math.RoundToEven") && len(ret.Args[0].Args) == 1
 		if !okT2 {
 			got := "a bare conversion (truncation)"
 			if ret.Op == OpConv && ret.Args[0].Op == OpCall {
@@ -374,6 +381,75 @@ func checkC17(c *Checker) {
 		c.expect(ok, "C17-T4", "round-trip", "", fmt.Sprintf("bound %s < 0.5 (d_dur=%s ns, d_ev=%s events)", lhs.FloatString(8), dDur.FloatString(6), dEv.FloatString(8)),
 			fmt.Sprintf("bound %s is not below 0.5", lhs.FloatString(8)))
 	}
+}
+
+// positiveRatePaths drops the paths whose branch decisions contradict f > 0 (f a real number): a decision is a
+// comparison of the bare receiver with a constant, math.IsNaN(f) or f != f.
+func positiveRatePaths(outs []Outcome, recv string) []Outcome {
+	isF := func(x *Term) bool {
+		for x != nil && x.Op == OpConv && kindOf(x.Typ).Float {
+			x = x.Args[0]
+		}
+		return x != nil && x.Op == OpAtom && x.Name == recv
+	}
+	// truth of the term under f > 0: +1 true, -1 false, 0 unknown
+	var truth func(t *Term) int
+	truth = func(t *Term) int {
+		switch {
+		case t == nil:
+			return 0
+		case t.Op == OpLNot:
+			return -truth(t.Args[0])
+		case t.Op == OpCall && t.Name == "math.IsNaN" && len(t.Args) == 1 && isF(t.Args[0]):
+			return -1
+		case t.Op == OpCmp && isF(t.Args[0]) && isF(t.Args[1]):
+			if t.Tok == token.NEQ || t.Tok == token.LSS || t.Tok == token.GTR {
+				return -1
+			}
+			return 1
+		case t.Op == OpCmp:
+			a, b, tok := t.Args[0], t.Args[1], t.Tok
+			if !isF(a) {
+				if !isF(b) {
+					return 0
+				}
+				a, b = b, a
+				tok = map[token.Token]token.Token{token.LSS: token.GTR, token.LEQ: token.GEQ, token.GTR: token.LSS, token.GEQ: token.LEQ, token.EQL: token.EQL, token.NEQ: token.NEQ}[tok]
+			}
+			cv, ok := constFloat(b)
+			if !ok || !b.IsConst() || cv > 0 || math.IsNaN(cv) {
+				return 0
+			}
+			// f ⋈ cv with cv <= 0 < f
+			switch tok {
+			case token.GTR, token.GEQ, token.NEQ:
+				return 1
+			case token.LSS, token.LEQ, token.EQL:
+				return -1
+			}
+		}
+		return 0
+	}
+	var keep []Outcome
+	for _, o := range outs {
+		dead := false
+		for _, fc := range nonAxiomFacts(o.St.facts) {
+			if fc.Orig == nil {
+				continue
+			}
+			tr := truth(fc.Orig)
+			if fc.OrigNeg {
+				tr = -tr
+			}
+			if tr < 0 {
+				dead = true
+			}
+		}
+		if !dead {
+			keep = append(keep, o)
+		}
+	}
+	return keep
 }
 
 func cancel(up, down []string) ([]string, []string) {
